@@ -39,7 +39,7 @@ func runC01(c *core.Ctx) {
 	ruleRetryLoop(c, "C01.exact-reads", "WriteN", "Write")
 	// every ReadN fills a buffer of exactly the length asked for: a payload buffer that is
 	// re-sliced or reused is longer (or shared with an earlier message) — rule shared with C08
-	c.Doc("C08.readn-calls", "every ReadN call passes the length of the buffer it fills (a fresh buffer of that length) — rule shared with C08", 10)
+	c.Doc("C08.readn-calls", "every ReadN call passes the length of the buffer it fills (a fresh buffer of that length) — rule shared with C08", 3)
 	ruleReadNCalls(c, newDecoderSet(c), "C08.readn-calls")
 	if a := getEP(c, "C01.anchors"); a != nil {
 		c.Doc("C10.single-write", "one stream write per message, header then payload in a private buffer, size mismatch refused", 5)
